@@ -1,6 +1,7 @@
 package props
 
 import (
+	"bufio"
 	"bytes"
 	"fmt"
 	"io"
@@ -17,10 +18,14 @@ import (
 type C13Case struct {
 	Stream  string
 	Level   int
-	DefBuf  int   // default caller buffer
-	DefFrag int   // default source fragment (0 = as much as fits)
-	EOFLast bool  // uniform schedules: deliver the last fragment together with io.EOF
-	AltBuf  int   `json:",omitempty"` // > 0: the caller alternates between DefBuf and AltBuf
+	DefBuf  int  // default caller buffer
+	DefFrag int  // default source fragment (0 = as much as fits)
+	EOFLast bool // uniform schedules: deliver the last fragment together with io.EOF
+	AltBuf  int  `json:",omitempty"` // > 0: the caller alternates between DefBuf and AltBuf
+	// Wrap: the fragmenting source is handed over inside a *bufio.Reader (1: 16-byte buffer, 2: default
+	// size, 3: 37 bytes) - a reader that takes Peek / Discard / Buffered short cuts then meets buffer
+	// fills that end wherever the fragments end
+	Wrap    int   `json:",omitempty"`
 	Choices []int `json:",omitempty"`
 }
 
@@ -119,7 +124,7 @@ func c13Body(r *core.Run, s Stream, p C13Case, x *core.X) {
 		return core.MkCase("C13", "schedule", q)
 	}
 	desc := func() string {
-		return fmt.Sprintf("stream %s defaults(buf=%d,alternating with %d,frag=%d,eofLast=%v) deviations: %v", s.Name, p.DefBuf, p.AltBuf, p.DefFrag, p.EOFLast, x.Log)
+		return fmt.Sprintf("stream %s defaults(buf=%d,alternating with %d,frag=%d,eofLast=%v,bufio wrap=%d) deviations: %v", s.Name, p.DefBuf, p.AltBuf, p.DefFrag, p.EOFLast, p.Wrap, x.Log)
 	}
 	var out []byte
 	var trace []string
@@ -127,7 +132,16 @@ func c13Body(r *core.Run, s Stream, p C13Case, x *core.X) {
 	sawEOF := false
 	pan := core.Guard(func() {
 		// a raw LZMA2 stream carries no dictionary size: the reader is given the one the stream needs
-		rd, err := openReaderDict(s.Fmt, src, maxInt(4096, int(s.DictSize)))
+		var source io.Reader = src
+		switch p.Wrap {
+		case 1:
+			source = bufio.NewReaderSize(src, 16)
+		case 2:
+			source = bufio.NewReader(src)
+		case 3:
+			source = bufio.NewReaderSize(src, 37)
+		}
+		rd, err := openReaderDict(s.Fmt, source, maxInt(4096, int(s.DictSize)))
 		if err != nil {
 			final = err
 			trace = append(trace, "open:"+errStr(err))
@@ -221,7 +235,7 @@ func runC13(r *core.Run) {
 	if v := os.Getenv("VERIF_C13_BOUND"); v != "" {
 		fmt.Sscan(v, &bound)
 	}
-	r.Rule = fmt.Sprintf("streams of all three formats with many boundaries in few bytes; (1) uniform schedules: caller buffer in {1,2,3,5,4096} x source fragment in {1,2,3,all} x last fragment with/without io.EOF; two alternating buffer sizes from {1,100,255,256,257,4096}; (2) deviation-bounded schedules (bound %d) around defaults (4096,all) and (7,all): at EVERY caller Read a 0- or 1-byte buffer, at EVERY source Read a 1-byte answer or data together with io.EOF; after EOF three more non-empty reads and one empty read. states = (format, deviations used); non-trivial = distinct (stream, observed (n,err) sequence)", bound)
+	r.Rule = fmt.Sprintf("streams of all three formats with many boundaries in few bytes; (1) uniform schedules: caller buffer in {1,2,3,5,4096} x source fragment in {1,2,3,all} x last fragment with/without io.EOF; two alternating buffer sizes from {1,100,255,256,257,4096}; the fragmenting source inside a bufio.Reader (16 / default / 37 bytes) with uniform schedules and deviation bound 1; (2) deviation-bounded schedules (bound %d) around defaults (4096,all) and (7,all): at EVERY caller Read a 0- or 1-byte buffer, at EVERY source Read a 1-byte answer or data together with io.EOF; after EOF three more non-empty reads and one empty read. states = (format, deviations used); non-trivial = distinct (stream, observed (n,err) sequence)", bound)
 	streams := readerStreams(level)
 	totalExec, totalPoints := int64(0), int64(0)
 	complete := true
@@ -235,6 +249,25 @@ func runC13(r *core.Run) {
 					core.Replay(func(x *core.X) { c13Body(r, s, p, x) }, nil)
 					totalExec++
 				}
+			}
+		}
+		// (1c) the fragmenting source inside a bufio.Reader: uniform schedules and deviation bound 1
+		for wrap := 1; wrap <= 3; wrap++ {
+			for _, b := range []int{1, 7, 4096} {
+				for _, f := range []int{1, 3, 5, 0} {
+					p := C13Case{Stream: s.Name, Level: level, DefBuf: b, DefFrag: f, EOFLast: f == 3, Wrap: wrap}
+					core.Replay(func(x *core.X) { c13Body(r, s, p, x) }, nil)
+					totalExec++
+				}
+			}
+			p := C13Case{Stream: s.Name, Level: level, DefBuf: 4096, Wrap: wrap}
+			e := &core.Explorer{Ctx: r, Name: "C13 bufio " + s.Name, Bound: 1, Workers: r.Workers, Body: func(x *core.X) { c13Body(r, s, p, x) },
+				Stop: func() bool { return r.Expired("deviation-bounded schedules (bufio)") }}
+			e.Run()
+			totalExec += e.Executions
+			totalPoints += e.Points
+			if !e.Complete {
+				complete = false
 			}
 		}
 		// (1b) two alternating caller buffer sizes (a short and a long read next to each other)
